@@ -149,3 +149,12 @@ Definition xq_close (a b : xq) : bool :=
 (* exact decoding of an f64 printed by the harness as mantissa * 2^exponent *)
 Definition F (m e : Z) : xq :=
   Fin (qn (if (0 <=? e)%Z then inject_Z (m * 2 ^ e) else (m # (Z.to_pos (2 ^ (- e)))))).
+
+Arguments qn : simpl never.
+Arguments q_ltb : simpl never.
+Arguments q_leb : simpl never.
+Arguments q_eqb : simpl never.
+Arguments q_abs : simpl never.
+Arguments q_min : simpl never.
+Arguments q_max : simpl never.
+Arguments q_sgn : simpl never.
